@@ -11,11 +11,11 @@ theorem rxChain_eq : rxChain = [.adminRoute, .static, .reasm, .bcb, .bib, .admin
 /-- A bundle is *accepted* when it passes the CRC gate, is not sourced by this node and its
     identity has not been seen. -/
 def accepted (cfg : Cfg) (st : St) (rx : RxBundle) : Prop :=
-  rx.crcOk = true ∧ rx.primary.src ≠ cfg.nodeId ∧ identOf rx.primary ∉ st.seen
+  rx.crcOk = true ∧ rx.primary.src ≠ cfg.nodeId ∧ identOf rx.primary rx.blocks ∉ st.seen
 
 theorem recv_accepted (cfg : Cfg) (st : St) (now : Nat) (rx : RxBundle) (h : accepted cfg st rx) :
     recvBundle cfg st now rx =
-      dispose { st with seen := identOf rx.primary :: st.seen }
+      dispose { st with seen := identOf rx.primary rx.blocks :: st.seen }
         (runChain cfg rx now rxChain
           (({ primary := rx.primary, rptNone := rx.rptNone, blocks := rx.blocks } : Ctr).record .receive now)) := by
   obtain ⟨h1, h2, h3⟩ := h
@@ -39,7 +39,7 @@ theorem chain_static (cfg : Cfg) (rx : RxBundle) (now : Nat) (c : Ctr)
 /-- the report effect `_finish_bundle` schedules, if any -/
 def finishEff (c : Ctr) : List Effect :=
   match reportFor c with
-  | some rep => [.report (identOf c.primary) rep (replyCtr c.primary.rpt rep)]
+  | some rep => [.report (c.ident) rep (replyCtr c.primary.rpt rep)]
   | none => []
 
 theorem finish_eff (st : St) (c : Ctr) : (finish st c).2 = finishEff c := by
@@ -51,8 +51,8 @@ theorem finish_seen (st : St) (c : Ctr) : (finish st c).1.seen = st.seen := by
 theorem dispose_eff (st : St) (c : Ctr) :
     (dispose st c).2 =
       if hasAct c.actions .delete then finishEff c
-      else (if hasAct c.actions .deliver then .delivered (identOf c.primary) :: finishEff c else [])
-           ++ (if hasAct c.actions .forward then [.queued (identOf c.primary)] else []) := by
+      else (if hasAct c.actions .deliver then .delivered (c.ident) :: finishEff c else [])
+           ++ (if hasAct c.actions .forward then [.queued (c.ident)] else []) := by
   unfold dispose
   cases h1 : hasAct c.actions .delete <;> cases h2 : hasAct c.actions .deliver <;>
     cases h3 : hasAct c.actions .forward <;> simp [finish_eff]
@@ -73,7 +73,7 @@ theorem finishEff_count (c : Ctr) (id : Ident) (x : Effect) (hx : isDQ id x) :
 /-- Repeats are ignored: a bundle whose identity has been seen causes no effect and no state
     change. -/
 theorem recv_repeat (cfg : Cfg) (st : St) (now : Nat) (rx : RxBundle)
-    (h : identOf rx.primary ∈ st.seen) : recvBundle cfg st now rx = (st, []) := by
+    (h : identOf rx.primary rx.blocks ∈ st.seen) : recvBundle cfg st now rx = (st, []) := by
   unfold recvBundle
   split
   · rfl
@@ -106,17 +106,29 @@ theorem chain_primary (cfg : Cfg) (rx : RxBundle) (now : Nat) (ks : List StepKin
     · exact hstep
     · rw [ih, hstep]
 
+theorem chain_blocks (cfg : Cfg) (rx : RxBundle) (now : Nat) (ks : List StepKind) (c : Ctr) :
+    (runChain cfg rx now ks c).blocks = c.blocks := by
+  induction ks generalizing c with
+  | nil => rfl
+  | cons k ks ih =>
+    have hstep : (runStep cfg rx now k c).1.blocks = c.blocks := by
+      cases k <;> simp only [runStep, secStep] <;> (repeat' split) <;> simp [Ctr.record]
+    simp only [runChain]
+    split
+    · exact hstep
+    · rw [ih, hstep]
+
 theorem recv_cases (cfg : Cfg) (st : St) (now : Nat) (rx : RxBundle) :
     recvBundle cfg st now rx = (st, []) ∨
-    (identOf rx.primary ∉ st.seen ∧ ∃ c : Ctr, c.primary = rx.primary ∧
-      recvBundle cfg st now rx = dispose { st with seen := identOf rx.primary :: st.seen } c) := by
+    (identOf rx.primary rx.blocks ∉ st.seen ∧ ∃ c : Ctr, c.ident = identOf rx.primary rx.blocks ∧
+      recvBundle cfg st now rx = dispose { st with seen := identOf rx.primary rx.blocks :: st.seen } c) := by
   by_cases h1 : rx.crcOk = true
   · by_cases h2 : rx.primary.src = cfg.nodeId
     · exact Or.inl (recv_own_source cfg st now rx h2)
-    · by_cases h3 : identOf rx.primary ∈ st.seen
+    · by_cases h3 : identOf rx.primary rx.blocks ∈ st.seen
       · exact Or.inl (recv_repeat cfg st now rx h3)
       · refine Or.inr ⟨h3, _, ?_, recv_accepted cfg st now rx ⟨h1, h2, h3⟩⟩
-        rw [chain_primary]; rfl
+        simp only [Ctr.ident, chain_primary, chain_blocks]; rfl
   · exact Or.inl (recv_bad_crc cfg st now rx (by simpa using h1))
 
 theorem timestamp_seen (st : St) (now : Nat) : (timestamp st now).1.seen = st.seen := by
@@ -178,12 +190,15 @@ theorem doFwd_plain (cfg : Cfg) (st : St) (now : Nat) (sp : SendParams) :
         rintro e (h | h)
         · subst h; simp [plain]
         · exact finishEff_plain _ e h
-      · rename_i fr hfr
-        have := fwdFail_plain (sendBundle cfg (fwdEdit cfg { st with fwdQ := q } now c0).1 now sp
+      · simp only [finish_eff, finish_seen, sendBundle_seen, fwdEdit_seen, List.mem_cons]
+        refine ⟨?_, trivial⟩
+        rintro e (h | h)
+        · subst h; simp [plain]
+        · exact finishEff_plain _ e h
+      · have := fwdFail_plain (sendBundle cfg (fwdEdit cfg { st with fwdQ := q } now c0).1 now sp
             (fwdEdit cfg { st with fwdQ := q } now c0).2.1).1
           (sendBundle cfg (fwdEdit cfg { st with fwdQ := q } now c0).1 now sp
-            (fwdEdit cfg { st with fwdQ := q } now c0).2.1).2.1 now
-          (if fr then [Effect.fragmented] else []) (by cases fr <;> simp [plain])
+            (fwdEdit cfg { st with fwdQ := q } now c0).2.1).2.1 now [] (by simp)
         simpa [sendBundle_seen, fwdEdit_seen] using this
 
 theorem sendReport_plain (cfg : Cfg) (st : St) (now : Nat) (sp : SendParams) :
@@ -193,10 +208,7 @@ theorem sendReport_plain (cfg : Cfg) (st : St) (now : Nat) (sp : SendParams) :
   · simp
   · rename_i r q hq
     simp only []
-    split
-    · simp [plain, sendBundle_seen]
-    · rename_i fr hfr
-      cases fr <;> simp [plain, sendBundle_seen]
+    split <;> simp [plain, sendBundle_seen]
 
 /-- Per-event facts about deliveries / forwarding acceptances attributed to `id`. -/
 theorem step_dq (cfg : Cfg) (st : St) (e : Ev) (id : Ident) (x : Effect) (hx : isDQ id x) :
@@ -213,13 +225,13 @@ theorem step_dq (cfg : Cfg) (st : St) (e : Ev) (id : Ident) (x : Effect) (hx : i
       · rw [h]; simp
       · rw [h, dispose_eff, dispose_seen, hc]
         have hf := finishEff_count c id x hx
-        by_cases hid : id = identOf rx.primary
+        by_cases hid : id = identOf rx.primary rx.blocks
         · subst hid
           refine ⟨fun _ => by simp, ?_, fun h => absurd h hns, fun _ => by simp⟩
           rcases hx with rfl | rfl <;> (repeat' split) <;> simp [hf]
         · have h0 : (if hasAct c.actions .delete then finishEff c
-              else (if hasAct c.actions .deliver then Effect.delivered (identOf rx.primary) :: finishEff c else [])
-                ++ (if hasAct c.actions .forward then [Effect.queued (identOf rx.primary)] else [])).count x = 0 := by
+              else (if hasAct c.actions .deliver then Effect.delivered (identOf rx.primary rx.blocks) :: finishEff c else [])
+                ++ (if hasAct c.actions .forward then [Effect.queued (identOf rx.primary rx.blocks)] else [])).count x = 0 := by
             rcases hx with rfl | rfl <;> (repeat' split) <;>
               simp [hf, Ne.symm hid]
           rw [h0]
@@ -271,7 +283,7 @@ theorem finishEff_report (c : Ctr) : ((finishEff c).filter isReport).length ≤ 
   unfold finishEff; cases reportFor c <;> simp
 
 theorem finishEff_ident (c : Ctr) (i : Ident) (p : StatusReport) (r : Ctr) (h : Effect.report i p r ∈ finishEff c) :
-    i = identOf c.primary := by
+    i = c.ident := by
   unfold finishEff at h
   cases hc : reportFor c <;> simp_all
 
@@ -296,7 +308,7 @@ theorem fwdEdit_fwdQ (cfg : Cfg) (st : St) (now : Nat) (c : Ctr) :
 /-! ### containers through the forwarding path -/
 
 theorem finishEff_mem (c : Ctr) (e : Effect) (h : e ∈ finishEff c) :
-    ∃ rep, reportFor c = some rep ∧ e = .report (identOf c.primary) rep (replyCtr c.primary.rpt rep) := by
+    ∃ rep, reportFor c = some rep ∧ e = .report (c.ident) rep (replyCtr c.primary.rpt rep) := by
   unfold finishEff at h
   cases hr : reportFor c with
   | none => simp [hr] at h
@@ -320,30 +332,32 @@ theorem removeNums_meta (c : Ctr) (ns : List Nat) : sameMeta c (c.removeNums ns)
   | cons n ns ih =>
     exact sameMeta_trans (b := c.removeNum n) ⟨rfl, rfl, rfl, rfl, rfl⟩ (ih _)
 
-theorem addBlock_meta (c : Ctr) (t : Nat) (pre : Option Nat) (d : Bytes) (r : Ctr × Nat)
-    (h : c.addBlock t pre d = some r) : sameMeta c r.1 := by
+theorem addBlock_meta (c : Ctr) (t : Nat) (d : Bytes) (r : Ctr × Nat)
+    (h : c.addBlock t d = some r) : sameMeta c r.1 := by
   unfold Ctr.addBlock at h
-  cases pre <;> simp only [] at h <;> split at h <;> simp at h <;> subst h <;>
-    exact ⟨rfl, rfl, rfl, rfl, rfl⟩
+  simp only [] at h
+  split at h <;> simp at h
+  subst h
+  exact ⟨rfl, rfl, rfl, rfl, rfl⟩
 
 theorem fwdEdit_meta (cfg : Cfg) (st : St) (now : Nat) (c : Ctr) :
     sameMeta c (fwdEdit cfg st now c).2.1 := by
   simp only [fwdEdit]
-  have h1 := removeNums_meta c (evens (c.clsNums .prev))
+  have h1 := removeNums_meta c (c.typeNums typePrevNode)
   split
   · exact h1
   · rename_i r hr
-    have h2 := addBlock_meta _ _ _ _ _ hr
+    have h2 := addBlock_meta _ _ _ _ hr
     have h3 : sameMeta r.1 { r.1 with blocks := r.1.blocks.map bumpHop } := ⟨rfl, rfl, rfl, rfl, rfl⟩
     have h4 := removeNums_meta { r.1 with blocks := r.1.blocks.map bumpHop }
-      (evens (({ r.1 with blocks := r.1.blocks.map bumpHop } : Ctr).clsNums .age))
+      (({ r.1 with blocks := r.1.blocks.map bumpHop } : Ctr).typeNums typeAge)
     have h14 := sameMeta_trans (sameMeta_trans (sameMeta_trans h1 h2) h3) h4
     split
     · exact h14
     · split
       · exact h14
       · rename_i r2 hr2
-        exact sameMeta_trans h14 (addBlock_meta _ _ _ _ _ hr2)
+        exact sameMeta_trans h14 (addBlock_meta _ _ _ _ hr2)
 
 theorem applyPrimary_actions (cfg : Cfg) (st : St) (now : Nat) (c : Ctr) :
     (applyPrimary cfg st now c).2.actions = c.actions ∧ (applyPrimary cfg st now c).2.reason = c.reason := by
@@ -419,6 +433,19 @@ theorem statusFor_delete_no (c : Ctr) (h : hasAct c.actions .delete = false) :
       simp [h] at this
   simp [statusFor, hn]
 
+
+theorem statusFor_absent (c : Ctr) (a : Action) (h : hasAct c.actions a = false) :
+    statusFor c a = .no := by
+  have hn : actTime c.actions a = none := by
+    cases ht : actTime c.actions a with
+    | none => rfl
+    | some t =>
+      have := (hasAct_iff _ _).2 ⟨t, actTime_some _ _ _ ht⟩
+      simp [h] at this
+  simp [statusFor, hn]
+
+theorem hasAct_delAct (a : Actions) (x : Action) : hasAct (delAct a x) x = false := by
+  simp [hasAct, delAct]
 
 theorem hasAct_record_ne (a : Actions) (x y : Action) (t : Nat) (hne : x ≠ y) :
     hasAct (recordAct a x t) y = hasAct a y := by
